@@ -10,8 +10,11 @@
      parts and marker alike) fails -- before anything happens, after the directory was created, or after
      the file was opened and [j] bytes were written (torn write) --, [cf i a] says that the computation
      of partition [i] fails on its [a]-th attempt;
+   - every fault is raised with a class [cls]: an ordinary Exception, OSError, StopIteration, GeneratorExit;
    - [_run_task] (context.py): a task = compute the partition, then call the task function; any
-     exception is retried until attempt number = max_retries, then re-raised;
+     Exception (not a bare BaseException such as GeneratorExit) is retried until attempt number =
+     max_retries, then re-raised; what escapes a task crosses the generator [_runJob_local]: a
+     StopIteration becomes RuntimeError there (PEP 479) -- [task_boundary], regenerated kind;
    - [Context.runJob] (local pool): lock test, lock, tasks in partition order, the first task that raises
      aborts the job; the lock is released as the regenerated [runjob_lock_release] says;
    - the savers: the regenerated step lists [text_steps] / [pickle_steps] (Gen/SaveOrder.v) are
@@ -75,10 +78,18 @@ Fixpoint set_child (nm : name) (c : bytes) (ch : list (name * bytes)) : list (na
 Definition child (f : fs) (nm : name) : option bytes :=
   match f with FDir ch => lookup nm ch | _ => None end.
 
+(* the exception class an injected fault is raised with *)
+Inductive cls : Type :=
+| KInjected    (* an ordinary Exception subclass of the injector (InjectedWriteFault / InjectedComputeFault) *)
+| KOSError     (* OSError *)
+| KStop        (* StopIteration: an Exception that generators and iterator consumers treat specially *)
+| KGenExit.    (* GeneratorExit: a BaseException, NOT caught by `except Exception` *)
+
 Inductive exn : Type :=
 | EExists      (* FileAlreadyExistsException *)
-| EWrite       (* the injected write fault *)
-| ECompute     (* the injected partition-computation fault *)
+| EWrite (c : cls)     (* an injected write fault, raised with class c *)
+| ECompute (c : cls)   (* an injected partition-computation fault, raised with class c *)
+| ERuntime     (* RuntimeError('generator raised StopIteration'): PEP 479 *)
 | ELocked      (* ContextIsLockedException *)
 | ENotADir     (* NotADirectoryError: writing below a plain file *)
 | EIsADir      (* IsADirectoryError: opening a directory for writing *)
@@ -95,10 +106,35 @@ Inductive wfault : Type :=
 
 Record plan : Type := mkplan {
   wf : nat -> option wfault;     (* by index of the dump call *)
-  cf : nat -> nat -> bool        (* partition index, attempt number (from 1) *)
+  wc : nat -> cls;               (* ... and the class it is raised with *)
+  cf : nat -> nat -> bool;       (* partition index, attempt number (from 1) *)
+  cc : nat -> nat -> cls;        (* ... the class it is raised with *)
+  cl : nat -> nat -> bool        (* ... lazily, from inside a generator (true), or at the call (false) *)
 }.
 
-Definition no_faults : plan := mkplan (fun _ => None) (fun _ _ => false).
+Definition no_faults : plan :=
+  mkplan (fun _ => None) (fun _ => KInjected) (fun _ _ => false) (fun _ _ => KInjected) (fun _ _ => false).
+
+(* PEP 479: a StopIteration that escapes a generator frame reaches the consumer as RuntimeError *)
+Definition in_generator (e : exn) : exn :=
+  match e with
+  | EWrite KStop | ECompute KStop => ERuntime
+  | _ => e
+  end.
+(* `except Exception` in _run_task *)
+Definition catchable (e : exn) : bool :=
+  match e with
+  | EWrite KGenExit | ECompute KGenExit => false
+  | _ => true
+  end.
+Definition is_stop (e : exn) : bool :=
+  match e with
+  | EWrite KStop | ECompute KStop => true
+  | _ => false
+  end.
+(* the exception a failing computation of partition i, attempt a, raises *)
+Definition compute_exn (p : plan) (i a : nat) : exn :=
+  if cl p i a then in_generator (ECompute (cc p i a)) else ECompute (cc p i a).
 
 Record st : Type := mkst {
   s_fs : fs;
@@ -138,10 +174,11 @@ Definition dump (p : plan) (t : target) (c : bytes) (s : st) : res unit * st :=
               | Ok f' => (Ok tt, f')
               | Err e => (Err e, s_fs s)
               end
-    | Some WBefore => (Err EWrite, s_fs s)
-    | Some WMkdir => (Err EWrite, mkdir_for t (s_fs s))
+    | Some WBefore => (Err (EWrite (wc p k)), s_fs s)
+    | Some WMkdir => (Err (EWrite (wc p k)), mkdir_for t (s_fs s))
     | Some (WTorn j) => match write_to t (firstn j c) (s_fs s) with
-                        | Ok f' => (Err EWrite, f')
+                        (* the stream that tears is a generator *)
+                        | Ok f' => (Err (in_generator (EWrite (wc p k))), f')
                         | Err e => (Err e, s_fs s)
                         end
     end in
@@ -152,19 +189,28 @@ Fixpoint attempts (p : plan) (act : st -> res unit * st) (i rem a : nat) (s : st
   match rem with
   | 0 => (Err ENoRetries, s)
   | S rem' =>
-      let '(r, s') := if cf p i a then (Err ECompute, s) else act s in
+      let '(r, s') := if cf p i a then (Err (compute_exn p i a), s) else act s in
       match r with
       | Ok _ => (r, s')
-      | Err e => match rem' with
-                 | 0 => (Err e, s')
-                 | S _ => attempts p act i rem' (S a) s'
-                 end
+      | Err e => if catchable e
+                 then match rem' with
+                      | 0 => (Err e, s')
+                      | S _ => attempts p act i rem' (S a) s'
+                      end
+                 else (Err e, s')     (* not an Exception: neither caught nor retried *)
       end
   end.
 
 Section Saver.
 Variable A : Type.                 (* the data of one partition *)
 Variable render : A -> bytes.      (* its file content *)
+
+(* an exception escaping a task crosses what _runJob_local returns (regenerated: a generator today) *)
+Definition task_boundary (e : exn) (s : st) : res unit * st :=
+  match runjob_local_kind with
+  | TaskGenerator => (Err (in_generator e), s)
+  | TaskMap => if is_stop e then (Ok tt, s) else (Err e, s)   (* list(map(...)) takes StopIteration for the end *)
+  end.
 
 (* _runJob_local forced by resultHandler=list: tasks in partition order, stop at the first that raises *)
 Fixpoint tasks (p : plan) (act : nat -> A -> st -> res unit * st) (m i : nat) (xs : list A) (s : st)
@@ -173,7 +219,7 @@ Fixpoint tasks (p : plan) (act : nat -> A -> st -> res unit * st) (m i : nat) (x
   | [] => (Ok tt, s)
   | x :: r => match attempts p (act i x) i m 1 s with
               | (Ok _, s') => tasks p act m (S i) r s'
-              | (Err e, s') => (Err e, s')
+              | (Err e, s') => task_boundary e s'
               end
   end.
 
